@@ -265,6 +265,10 @@ type burstCase struct {
 	PauseUS int     `json:"tcp_pause_between_segments_us,omitempty"` // 0: the writer only yields the processor between segments
 	QPer    int     `json:"questions_per_request,omitempty"`         // 0 = 1; several questions make requests and responses exceed 255 bytes
 	Private int     `json:"private_names_per_client,omitempty"`      // names each client registers, refreshes and (odd ones) releases during the burst
+	// Shared (with Private > 0): every client also joins one common group name with an address of its own and
+	// refreshes that membership twice, so that refreshes of ONE record overlap (the private names overlap only
+	// with other names)
+	Shared bool `json:"shared_group,omitempty"`
 }
 
 func (c burstCase) qper() int {
@@ -422,6 +426,13 @@ func checkBurst(c burstCase) []vf.Finding {
 			}
 			sc.after = append(sc.after, &slot{r: req{ID: idOf(i, 32+m), Opcode: 0, QName: privName(i, m)}})
 		}
+		if c.Shared && c.Private > 0 {
+			member := func(slotNo, opcode int) *slot {
+				return &slot{r: req{ID: idOf(i, slotNo), Opcode: opcode, NM: 0x0080, QName: "SHAREDGROUP", RRName: "SHAREDGROUP", RRIP: privAddr(i, 31), InAddl: inAddl}}
+			}
+			sc.regs = append(sc.regs, member(40, 5))
+			sc.refreshes = append(sc.refreshes, member(41, 8), member(42, 8))
+		}
 		wg.Add(1)
 		go func(i int) {
 			defer wg.Done()
@@ -467,6 +478,12 @@ func checkBurst(c burstCase) []vf.Finding {
 			good := sl.p.Rcode == 0 && sl.p.Answers == Q
 			for q := 0; q < Q; q++ {
 				good = good && sl.p.hasAddr(c.qAddr(i, j, q)) && sl.p.hasName(c.qName(i, j, q))
+			}
+			// a response that says of itself that it was truncated (TC) is not held to be complete (where a
+			// datagram server draws that line is its business); that it carries nothing of another request is
+			// still asked below
+			if sl.p.Flags&0x0200 != 0 && sl.p.Rcode == 0 {
+				good = true
 			}
 			if !good {
 				fs = append(fs, vf.F(c.Kind, "response-does-not-answer-its-own-request", "client %d request %d (id %#x, %d questions %s.. -> %v..): rcode %d, %d answers, raw %x", i, j, sl.p.ID, Q, c.qName(i, j, 0), c.qAddr(i, j, 0), sl.p.Rcode, sl.p.Answers, sl.p.Raw))
@@ -579,6 +596,7 @@ func genBurst(t *rapid.T, kind string) burstCase {
 	}
 	if rapid.IntRange(0, 3).Draw(t, "mutating") > 0 {
 		c.Private = rapid.IntRange(1, 6).Draw(t, "private")
+		c.Shared = rapid.Bool().Draw(t, "sharedGroup")
 	}
 	return c
 }
@@ -592,6 +610,9 @@ func checkBurstClassed(s *vf.Sub) func(burstCase) []vf.Finding {
 		}
 		if c.Private > 0 {
 			s.Class("concurrent-registration-refresh-release")
+		}
+		if c.Shared {
+			s.Class("overlapping-refreshes-of-one-group")
 		}
 		return checkBurst(c)
 	}
